@@ -256,3 +256,214 @@ func (r *Run) WhoConstructs(pkg, typ string, allowed []string, why string) {
 		r.viol("vacuous-rule", "", construct, "no constructor found at all", why, "", 0)
 	}
 }
+
+// succReachesExitAvoiding: from block start, is some exit (Return/Panic) reachable without passing
+// a block that contains a call matching one of targets?
+func (r *Run) exitReachableAvoidingCalls(fn *ssa.Function, start *ssa.BasicBlock, targets []string) (*ssa.BasicBlock, bool) {
+	has := map[*ssa.BasicBlock]bool{}
+	for _, cs := range r.P.Calls(fn, false) {
+		for _, t := range targets {
+			if calleeMatches(cs, t) {
+				has[cs.Instr.Block()] = true
+			}
+		}
+	}
+	seen := map[*ssa.BasicBlock]bool{}
+	var st []*ssa.BasicBlock
+	if !has[start] {
+		st = append(st, start)
+		seen[start] = true
+	}
+	for len(st) > 0 {
+		b := st[len(st)-1]
+		st = st[:len(st)-1]
+		if _, ok := lastInstr(b).(*ssa.Return); ok {
+			return b, true
+		}
+		for _, s := range b.Succs {
+			if !seen[s] && !has[s] {
+				seen[s] = true
+				st = append(st, s)
+			}
+		}
+	}
+	return nil, false
+}
+
+// OnErrorMustCall: in fn, whenever a call matching `match` returns a non-nil error, every path to
+// a return passes through a call matching one of targets ("|" separated).
+func (r *Run) OnErrorMustCall(fnName, match, targets, why string) {
+	fn := r.fn(fnName)
+	if fn == nil {
+		return
+	}
+	file, line := r.P.FnPos(fn)
+	construct := "error of " + match + " ⇒ " + targets
+	sites := r.P.FindCalls(fn, match, false)
+	if len(sites) == 0 {
+		r.viol("K2-on-error", fnName, construct, fnName+" no longer calls "+match, why, file, line)
+		return
+	}
+	tl := strings.Split(targets, "|")
+	for _, cs := range sites {
+		from, okSucc := r.P.nilErrEdge(cs.Instr)
+		if from == nil {
+			r.viol("K2-on-error", fnName, construct, fmt.Sprintf("the error of %s at %s:%d is not tested against nil", match, cs.File, cs.Line), why, cs.File, cs.Line)
+			return
+		}
+		var errSucc *ssa.BasicBlock
+		for _, s := range from.Succs {
+			if s != okSucc {
+				errSucc = s
+			}
+		}
+		if b, bad := r.exitReachableAvoidingCalls(fn, errSucc, tl); bad {
+			f2, l2 := r.P.Pos(lastInstr(b).Pos())
+			r.viol("K2-on-error", fnName, construct, fmt.Sprintf("after %s fails (%s:%d) the return at %s:%d is reachable without calling %s", match, cs.File, cs.Line, f2, l2, targets), why, f2, l2)
+			return
+		}
+	}
+	r.pass("K2-on-error", fnName, construct, fmt.Sprintf("%d site(s): every failure path passes %s", len(sites), targets), why, sites[0].File, sites[0].Line)
+}
+
+// OnCondMustCall: in fn there is a branch with canonical condition cond (or its negation) and from
+// the edge on which cond holds every path to a return passes a call matching targets.
+func (r *Run) OnCondMustCall(fnName, cond, targets, why string) {
+	fn := r.fn(fnName)
+	if fn == nil {
+		return
+	}
+	cond = r.X(cond)
+	file, line := r.P.FnPos(fn)
+	construct := "when " + cond + " ⇒ " + targets
+	fi := r.P.Info(fn)
+	tl := strings.Split(targets, "|")
+	for _, g := range fi.guards {
+		var start *ssa.BasicBlock
+		if g.Cond.String() == cond {
+			start = g.Block.Succs[0]
+		} else if g.Cond.Negate().String() == cond {
+			start = g.Block.Succs[1]
+		} else {
+			continue
+		}
+		if b, bad := r.exitReachableAvoidingCalls(fn, start, tl); bad {
+			f2, l2 := r.P.Pos(lastInstr(b).Pos())
+			r.viol("K2-on-cond", fnName, construct, fmt.Sprintf("when %s holds (%s:%d) the return at %s:%d is reachable without calling %s", cond, g.File, g.Line, f2, l2, targets), why, f2, l2)
+			return
+		}
+		r.pass("K2-on-cond", fnName, construct, "every path from that edge passes "+targets, why, g.File, g.Line)
+		return
+	}
+	r.viol("K2-on-cond", fnName, construct, fnName+" no longer branches on "+cond, why, file, line)
+}
+
+// MustPassAny: every success exit passes a successful call to at least one of the matchers.
+func (r *Run) MustPassAny(fnName string, matches []string, why string) {
+	fn := r.fn(fnName)
+	if fn == nil {
+		return
+	}
+	file, line := r.P.FnPos(fn)
+	construct := "success only through " + strings.Join(matches, " | ")
+	fi := r.P.Info(fn)
+	type edge struct{ a, b *ssa.BasicBlock }
+	cutE := map[edge]bool{}
+	cutB := map[*ssa.BasicBlock]bool{}
+	n := 0
+	for _, m := range matches {
+		for _, cs := range r.P.FindCalls(fn, m, false) {
+			n++
+			from, okSucc := r.P.nilErrEdge(cs.Instr)
+			if from != nil {
+				cutE[edge{from, okSucc}] = true
+			} else {
+				cutB[cs.Instr.Block()] = true
+			}
+		}
+	}
+	if n == 0 {
+		r.viol("K2-must-pass", fnName, construct, "none of the calls is present", why, file, line)
+		return
+	}
+	reach := reachableAvoiding(fn, func(a, b *ssa.BasicBlock) bool { return cutE[edge{a, b}] }, func(b *ssa.BasicBlock) bool { return cutB[b] })
+	for b := range fi.okBlock {
+		if reach[b] {
+			f2, l2 := r.P.Pos(lastInstr(b).Pos())
+			r.viol("K2-must-pass", fnName, construct, fmt.Sprintf("the success return at %s:%d is reachable without any of %s", f2, l2, strings.Join(matches, ", ")), why, f2, l2)
+			return
+		}
+	}
+	r.pass("K2-must-pass", fnName, construct, fmt.Sprintf("%d call site(s)", n), why, file, line)
+}
+
+// FieldWriters: functions that store to field f of struct T, or call a mutating *big.Int method on
+// a receiver loaded from that field, must be in the allowed set.
+func (r *Run) FieldWriters(pkg, typ, field string, allowed []string, why string) {
+	nt := r.namedType(pkg, typ)
+	if nt == nil {
+		r.viol("unresolved-anchor", "", "type "+pkg+"."+typ, "type not found", why, "", 0)
+		return
+	}
+	st, ok := nt.Underlying().(*types.Struct)
+	fidx := -1
+	if ok {
+		for i := 0; i < st.NumFields(); i++ {
+			if st.Field(i).Name() == field {
+				fidx = i
+			}
+		}
+	}
+	if fidx < 0 {
+		r.viol("unresolved-anchor", "", "field "+typ+"."+field, "field not found", why, "", 0)
+		return
+	}
+	construct := "writes " + typ + "." + field
+	isField := func(v ssa.Value) bool {
+		fa, ok := v.(*ssa.FieldAddr)
+		if !ok || fa.Field != fidx {
+			return false
+		}
+		pt, ok := fa.X.Type().Underlying().(*types.Pointer)
+		return ok && types.Identical(pt.Elem(), nt)
+	}
+	mutators := map[string]bool{"Add": true, "Sub": true, "Mul": true, "Quo": true, "Div": true, "Set": true, "SetBytes": true, "SetInt64": true, "SetUint64": true, "SetString": true, "Neg": true, "Mod": true, "Exp": true, "Lsh": true, "Rsh": true}
+	found := 0
+	for _, name := range r.P.FuncNames() {
+		fn := r.P.Fn(name)
+		if fn.Blocks == nil || isScaffolding(name) {
+			continue
+		}
+		var site ssa.Instruction
+		for _, b := range fn.Blocks {
+			for _, in := range b.Instrs {
+				switch x := in.(type) {
+				case *ssa.Store:
+					if isField(x.Addr) {
+						site = in
+					}
+				case *ssa.Call:
+					f := x.Call.StaticCallee()
+					if f != nil && f.Signature.Recv() != nil && strings.HasPrefix(f.String(), "(*math/big.Int).") && mutators[f.Name()] && len(x.Call.Args) > 0 {
+						if u, ok := x.Call.Args[0].(*ssa.UnOp); ok && isField(u.X) {
+							site = in
+						}
+					}
+				}
+			}
+		}
+		if site == nil {
+			continue
+		}
+		file, line := r.P.Pos(site.Pos())
+		if matchAny(name, allowed) {
+			found++
+			r.pass("K1-who-may-write", name, construct, "allowed writer", why, file, line)
+		} else {
+			r.viol("K1-who-may-write", name, construct, fmt.Sprintf("%s writes %s.%s but is not among the allowed writers", name, typ, field), why, file, line)
+		}
+	}
+	if found == 0 {
+		r.viol("vacuous-rule", "", construct, "no writer found at all", why, "", 0)
+	}
+}
